@@ -8,7 +8,9 @@ A case is a plain-JSON value
                                     dict of lists, dict of Series, DataFrame with RangeIndex / DatetimeIndex),
    'history': [call, ...],
    'stream'?: 'freq' | 'data' | 'ramp'  (which generator made the case; informative only)}
-Generators: gen_case (general), gen_state_case (slot logic), gen_freq_case (assets with an own frequency equal to the step of one
+Generators: gen_case (general), gen_state_case (slot logic), gen_nested_case (slot logic over wrappers nested in wrappers - scaled over
+structured / linked, scaled and structured inside structured, to depth 4 - and linked assets), gen_splitfail_case (split set-ups that raise
+in one of their intervals, then set-ups without grid argument), gen_freq_case (assets with an own frequency equal to the step of one
 of the grids, in any spelling, over finer / coarser / equal grids), gen_data_case (plant / CHP parameters keyed into the price data,
 repeated set-ups of the same portfolio on the same grid object with several data sets), gen_ramp_case (plants / CHPs with start /
 shutdown ramp profiles, ramp_freq None or set, minimum run / down times, over grids that differ in step AND main time unit).
@@ -798,6 +800,7 @@ class World:
         self.fixes = {}
         self.born = {}
         self.split_started = None      # number of interval set-ups the last split set-up began (None: the last call was no split)
+        self.split_entered = False     # did the last call reach Portfolio.setup_split_optim_problem at all (io.optimize may raise before)
 
     def _walk(self, a):
         self.byname[a.name] = a
@@ -917,6 +920,7 @@ class Ctx:
     def __init__(self, world):
         self.tracked = {n: None for n in world.byname}     # asset name -> grid id last set (None: never, '?': unknown)
         self.tracked['__pf__'] = None
+        self.failed_split = set()   # names (top-level assets, '__pf__') whose grid was last set by the `finally:` of a split set-up that raised
         self.last = None            # dict(kind, op, call_index, gid, pid, portfolio_level, ok_compared)
         self.res = None
 
@@ -972,6 +976,7 @@ def run_setup_call(world, call, expected_gid=None, capture_io=True):
     if op_ == 'pf_split':
         # (the set-ups of the intervals are counted: where a split set-up raised is a feature of the case)
         world.split_started = 0
+        world.split_entered = True
         orig_su = portf.setup_optim_problem
 
         def counted(*a, _o=orig_su, **kw):
@@ -994,6 +999,8 @@ def run_setup_call(world, call, expected_gid=None, capture_io=True):
             def wrapped(*a, _o=orig, _n=nm, **kw):
                 if _n == 'setup_optim_problem' and call.get('interval'):
                     world.split_started += 1
+                if _n == 'setup_split_optim_problem':
+                    world.split_entered = True
                 r = _o(*a, **kw)
                 if _n not in caught and not kw.get('costs_only', False):
                     caught[_n] = r
@@ -1100,9 +1107,11 @@ def execute(case, compare=True, stop_at_first=False):
                 comparable = compare
                 if o == 'asset_noarg':
                     exp_gid = ctx.tracked.get(call['asset'])
-                    if exp_gid is None and hasattr(H.byname[call['asset']], 'base_asset'):
-                        # a scaled asset that never saw a grid itself works on the grid of its base asset
-                        exp_gid = ctx.tracked.get(H.byname[call['asset']].base_asset.name)
+                    obj_ = H.byname[call['asset']]
+                    while exp_gid is None and hasattr(obj_, 'base_asset'):
+                        # a scaled asset that never saw a grid itself works on the grid of its base asset (which may be a scaled asset again)
+                        obj_ = obj_.base_asset
+                        exp_gid = ctx.tracked.get(obj_.name)
                     if exp_gid == '?':
                         comparable = False
                         exp_gid = None
@@ -1111,8 +1120,12 @@ def execute(case, compare=True, stop_at_first=False):
                     if exp_gid == '?':
                         comparable = False
                         exp_gid = None
-                # "the grid set before" after a split set-up that RAISED: the grid of that call or the one the object sat on before it
+                # "the grid set before" after a split set-up that RAISED: for the portfolio and its top-level assets the grid of that call
+                # (repo eb7f7dd); for WRAPPED assets the grid of that call or the one the object sat on before it
                 # (a tuple of candidate grid ids, the grid of the failed call last); never the temporary grid of an interval
+                after_failed = (o == 'asset_noarg' and call['asset'] in ctx.failed_split) or (o == 'pf_setup' and call.get('noarg') and '__pf__' in ctx.failed_split)
+                if after_failed:
+                    feats.append('noarg-after-failed-split:top-level')
                 cands = list(exp_gid) if isinstance(exp_gid, tuple) else [exp_gid]
                 if isinstance(exp_gid, tuple):
                     feats.append('noarg-after-failed-split')
@@ -1127,6 +1140,7 @@ def execute(case, compare=True, stop_at_first=False):
                 # history side
                 h_err, h_kind, h_val = None, None, None
                 H.split_started = None
+                H.split_entered = False
                 try:
                     h_kind, h_val = run_setup_call(H, call)
                     h_kind = _kind_of(h_kind, h_val)
@@ -1193,9 +1207,18 @@ def execute(case, compare=True, stop_at_first=False):
                     touched = H.under(call['asset'])
                 else:
                     touched = list(H.byname) + ['__pf__']
+                top_level = {a.name for a in H.assets} | {'__pf__'}
                 for n in touched:
+                    if split_like and h_err is not None and gid_now is not None and n in top_level and H.split_entered \
+                            and not (isinstance(h_err, AssertionError) and 'granular frequency' in str(h_err)):
+                        # a split set-up that raised in or before one of its intervals: the portfolio and its top-level assets are put back
+                        # on the grid of the call (`finally:` in setup_split_optim_problem, repo eb7f7dd; former finding F-10h)
+                        ctx.tracked[n] = gid_now
+                        ctx.failed_split.add(n)
+                        continue
+                    ctx.failed_split.discard(n)
                     if split_like and h_err is not None and gid_now is not None:
-                        # a split set-up that raised: see above
+                        # wrapped assets after a split set-up that raised: see above
                         prev = ctx.tracked[n]
                         if prev is None or prev == '?':
                             ctx.tracked[n] = '?'
@@ -1219,6 +1242,7 @@ def execute(case, compare=True, stop_at_first=False):
                 try:
                     H.byname[call['asset']].set_timegrid(H.grid(call['grid'], call.get('reuse', True)))
                     ctx.tracked[call['asset']] = call['grid']
+                    ctx.failed_split.discard(call['asset'])
                 except Exception as e:
                     feats.append('set_timegrid-error:' + err_class(e))
                     ctx.tracked[call['asset']] = '?'
@@ -1319,6 +1343,7 @@ def execute(case, compare=True, stop_at_first=False):
                                                 'asset_type': type(H.byname[who]).__name__ if who is not None else None,
                                                 'parameter': pc[1] if pc is not None else None,
                                                 'nested': ('asset' in call and call['asset'] not in [a.name for a in H.assets]),
+                                                'after_failed_split': bool(o in SETUP_OPS and after_failed),
                                                 'prices_form': (case['prices'][call['prices']]['form'] if isinstance(call.get('prices'), int)
                                                                 and call['prices'] < len(case['prices']) else None),
                                                 'prices_changed_before': any(f['what'].startswith('prices') for f in changed)}})
@@ -1450,6 +1475,12 @@ def witness_cases():
     sca = {'type': 'ScaledAsset', 'name': 'sca1', 'args': {'max_scale': 2.0, 'fix_costs': 1.0},
            'base': {'type': 'SimpleContract', 'name': 'sca1_b', 'nodes': ['N1'], 'args': {'min_cap': -1.0, 'max_cap': 1.0, 'price': 'p0'}}}
     p = [1.0, 2.0, 3.0, 4.0]
+    # scaled (window hour 1..) over structured (..hour 3 of day 2) over [transport, scaled over contract]
+    deep = lambda: {'type': 'ScaledAsset', 'name': 'scw1', 'args': dict({'max_scale': 2.0, 'fix_costs': 1.0}, start={'$dt': '2021-01-01T01:00:00'}),
+                    'base': {'type': 'StructuredAsset', 'name': 'sa1', 'nodes': ['N1'], 'inner_nodes': ['sa1_i1'], 'args': {'end': {'$dt': '2021-01-02T03:00:00'}}, 'inner': [
+                        {'type': 'Transport', 'name': 'sa1_tr', 'nodes': ['sa1_i1', 'N1'], 'args': {'min_cap': 0.0, 'max_cap': 1.0}},
+                        {'type': 'ScaledAsset', 'name': 'sa1_cw', 'args': {'max_scale': 2.0, 'fix_costs': 0.5, 'wacc': 0.1},
+                         'base': {'type': 'SimpleContract', 'name': 'sa1_c', 'nodes': ['sa1_i1'], 'args': {'min_cap': -1.0, 'max_cap': 1.0, 'price': 'p0'}}}]}}
     base = lambda assets: {'grid': A, 'nodes': ['N1'], 'prices': {'p0': p}, 'assets': assets}
     return {
         'H1-prices-frame-index-replaced': {
@@ -1489,6 +1520,22 @@ def witness_cases():
             'grids': [A], 'prices': [{'T': 4, 'form': 'dict', 'data': {'p0': p}}],
             'history': [{'op': 'pf_split', 'grid': 0, 'reuse': True, 'prices': 0, 'interval': '2h'},
                         {'op': 'asset_noarg', 'asset': 'sa1_c', 'prices': 0}]},
+        # wrappers nested in wrappers: a scaled asset over a structured asset holding a scaled asset
+        'H3-deep-wrapped-assets-after-split': {
+            'base': {'grid': A, 'nodes': ['N1', 'sa1_i1'], 'prices': {'p0': p}, 'assets': [deep(), mkt]},
+            'grids': [A], 'prices': [{'T': 4, 'form': 'dict', 'data': {'p0': p}}],
+            'history': [{'op': 'pf_split', 'grid': 0, 'reuse': True, 'prices': 0, 'interval': '2h'},
+                        {'op': 'asset_noarg', 'asset': 'sa1_c', 'prices': 0}]},
+        'nested-wrappers-direct-calls-on-every-level': {
+            'base': {'grid': A, 'nodes': ['N1', 'sa1_i1'], 'prices': {'p0': p}, 'assets': [deep(), mkt]},
+            'grids': [A, B], 'prices': [{'T': 4, 'form': 'dict', 'data': {'p0': p}}],
+            'history': [{'op': 'pf_setup', 'grid': 0, 'reuse': True, 'prices': 0},
+                        {'op': 'asset_setup', 'asset': 'sa1', 'grid': 1, 'reuse': True, 'prices': 0},
+                        {'op': 'asset_noarg', 'asset': 'sa1_c', 'prices': 0},
+                        {'op': 'asset_noarg', 'asset': 'scw1', 'prices': 0},
+                        {'op': 'set_timegrid', 'asset': 'sa1_cw', 'grid': 0, 'reuse': False},
+                        {'op': 'asset_noarg', 'asset': 'sa1_cw', 'prices': 0},
+                        {'op': 'pf_setup', 'grid': 1, 'reuse': True, 'prices': 0, 'noarg': True}]},
     }
 
 
@@ -1502,6 +1549,8 @@ WITNESS_EXPECT = {
     'H3-wrapped-asset-left-on-interval-grid-after-split': 'H3',
     'H3-wrapped-asset-builds-last-interval-only': 'H3',
     'H3-inner-asset-of-structured-after-split': 'H3',
+    'H3-deep-wrapped-assets-after-split': 'H3',
+    'nested-wrappers-direct-calls-on-every-level': None,
 }
 
 
@@ -1521,13 +1570,15 @@ def check_witnesses():
 # ===================================================================== state-model correspondence (ties Properties/C10.lean to the code)
 # The Lean state model (EAO.Model.State, driver op "state_run") is run on the SAME operation sequence as the real objects.
 # After every operation the observable slots of both sides are compared:
-#   * which grid OBJECT the portfolio, every asset and every wrapped (base / inner) asset points to (`.timegrid`),
-#   * start / end of wrapped assets (clipped and restored by the structured asset),
+#   * which grid OBJECT the portfolio and every object of the asset TREES (top-level assets and everything they wrap, to any depth:
+#     base asset of a scaled asset, inner assets of a structured / linked asset, wrappers inside wrappers) points to (`.timegrid`),
+#   * start / end of every object (clipped and restored by the wrappers above it),
 #   * per grid object the `restricted` slot (compared as VALUES: start, end, freq, T, I, dt of the restricted grid the
 #     model's writer token produces on that grid object vs the real `timegrid.restricted`) and the discount slot
 #     (`timegrid.discount_factors` vs the factors of the model's wacc token; also the snapshot inside `restricted`),
-#   * per operation what every primitive builder READ (`Used` of the model = slots of `self.timegrid` at the moment the
-#     builder's `setup_optim_problem` returns), in builder order,
+#   * per operation what every builder READ - primitive assets, scaled assets (length of the restricted grid for the fix costs) and linked
+#     assets (`self.timegrid.restricted.T`) - (`Used` of the model = slots of `self.timegrid` at the moment the builder's
+#     `setup_optim_problem` returns), in builder order,
 #   * the outcome class (ok / "no grid set").
 STATE_KINDS_PRIMITIVE = True
 
@@ -2235,12 +2286,17 @@ def gen_state_case(rnd, nest=None, base=None):
 # ===================================================================== what the property module registers (harness/props/c10.py imports these)
 P10 = 'EAO.Properties.C10'
 THEOREMS = [
-    (P10, 'EAO.C10.setup_pure', 'slot model of the mutable state (restricted-grid and discount slots of every grid object, grid pointers of portfolio, assets and wrapped assets, windows of wrapped assets): for every reachable state and EVERY call of the current code version, what each builder reads is the own window, frequency and wacc of its asset on the grid the call names or the object itself was put on; no side condition'),
-    (P10, 'EAO.C10.setup_pure_with_grid', 'with an explicit grid argument the result is pure for any history and any code version, even with all assets sharing one grid object'),
+    (P10, 'EAO.C10.setup_pure', 'slot model of the mutable state (restricted-grid and discount slots of every grid object, grid pointer of the portfolio, grid pointer and window of EVERY object of the asset trees: scaled / structured / linked assets wrapping each other to any depth): for every reachable state and EVERY call of the current code version (on the portfolio, a top-level asset or, directly, a wrapped asset at any depth), what each builder reads is the own window of its object clipped by the windows of the wrappers above it, its own frequency and wacc, on the grid the call names or the object itself was put on; no side condition'),
+    (P10, 'EAO.C10.setup_pure_with_grid', 'with an explicit grid argument the result is pure for any history and any code version, for the object at any address of a tree (plain, scaled, structured, linked; top-level or wrapped and called directly), even with all assets sharing one grid object'),
+    (P10, 'EAO.C10.setup_pure_with_grid_top', 'the same for a top-level asset, in the words of the flat model'),
     (P10, 'EAO.C10.setup_pure_portfolio', 'the same for a portfolio set-up'),
     (P10, 'EAO.C10.setup_pure_split', 'the same for a split set-up: every interval problem of every asset is built from the asset\'s own data on the interval grid'),
-    (P10, 'EAO.C10.inner_windows_restored', 'the windows of wrapped assets equal the constructed ones in every reachable state'),
-    (P10, 'EAO.C10.portfolio_setup_all_on', 'after a portfolio set-up with grid g the portfolio, all assets and all wrapped assets sit on g'),
+    (P10, 'EAO.C10.inner_windows_restored', 'the windows of ALL objects of the trees (wrapped at any depth) equal the constructed ones in every reachable state'),
+    (P10, 'EAO.C10.call_keeps_windows', 'stronger, for every state: no single call changes the window of any object (whatever a wrapper clips it restores)'),
+    (P10, 'EAO.C10.pure_reads_clipped', 'reading of the recursive specification: every primitive or scaled asset at any path below the object set up reads its own frequency and wacc and its own window clipped by the windows of ALL wrappers above it'),
+    (P10, 'EAO.C10.linked_reads_last_inner', 'a linked asset reads what a structured asset with the same inner assets reads and then, for its loop over the steps, the window of the inner asset set up LAST (not its own, not those of the two linked assets)'),
+    (P10, 'EAO.C10.linked_read_depends_on_inner_order', 'machine-checked witness (slot-model side of known finding F-09e): the read of a linked asset depends on the order of its inner assets'),
+    (P10, 'EAO.C10.portfolio_setup_all_on', 'after a portfolio set-up with grid g the portfolio, all assets and all wrapped assets at every depth sit on g (every state, every code version)'),
     (P10, 'EAO.C10.setup_not_pure_without_rederive', 'machine-checked counterexample for the behaviour before 7e0d787 (set-up without grid argument did not re-derive)'),
     (P10, 'EAO.C10.scaled_noarg_not_pure_before_fix', 'machine-checked counterexample for the behaviour before 19afd7c (scaled asset without grid argument used the base asset\'s grid)'),
     (P10, 'EAO.C10.split_leaves_wrapped_assets_on_interval_grid', 'machine-checked witness of known finding F-10e: after a split set-up wrapped assets stay on the grid of the last interval'),
@@ -2253,14 +2309,16 @@ PARTIAL = [
     'the Lean state model covers the slot logic only (who writes the restricted / discount slots and the grid pointers, what each builder reads back); '
     'Python aliasing of containers, pandas in-place semantics and the numeric content of the problems are covered only by the history oracle on the real code',
     'tie of the state model to the code: CHECKED on every run by the differential test "state-model" (driver op state_run vs the real objects after every operation: '
-    'grid pointer of portfolio / every asset / every wrapped asset, start and end of wrapped assets, restricted slot and discount slot of every reachable grid object, '
-    'and per builder the slots of its grid at the moment its setup_optim_problem returns). Still by inspection: (a) that a builder reads nothing mutable besides '
+    'grid pointer of the portfolio, grid pointer, start and end of EVERY object of the asset trees (wrappers nested in wrappers to any depth, linked assets), restricted slot and discount slot of every reachable grid object, '
+    'and per builder - primitive assets, scaled assets, linked assets - the slots of its grid at the moment its setup_optim_problem returns). Still by inspection: (a) that a builder reads nothing mutable besides '
     'self.timegrid.restricted between its own set_timegrid and its return (the test sees the slots at return, not each attribute access; the fresh-object oracle covers the effect); '
-    '(b) the state after an exception other than "no grid set" (the comparison of a history stops there); (c) LinkedAsset and wrappers nested in wrappers (not generated, not modelled); '
+    '(b) the state after an exception other than "no grid set" (the comparison of a history stops there; this includes a split set-up that raises in one of its intervals - the grid pointers after it are checked by the '
+    'history oracle, stream splitfail - and a linked asset whose loop raises, known finding F-09e); (c) one asset object at two places of a tree (Python aliasing; such histories are skipped by the state-model test), and a linked asset '
+    'over an EMPTY portfolio (no read recorded in the model; its loop has no variable to link); '
     '(d) the two OLD code versions of the model (rederive / scaledOwnGrid = false) were compared once with the trees before 7e0d787 / 19afd7c on the counterexample histories, not on every run',
 ]
 COMPONENTS = ['history oracle: n-th set-up on the same objects vs a fresh object tree and fresh grid (exact comparison of c, l, u, rows, mapping); constructor parameters of all assets unchanged by set-up calls (parameter_changed)',
-              'state-model: Lean slot model (state_run) vs slots and grid pointers of the real objects after every operation, and what every builder read']
+              'state-model: Lean slot model (state_run) vs slots, grid pointers and windows of the real objects (every object of the asset trees, to any depth) after every operation, and what every builder read']
 RULE = ('random histories of 2-8 calls (asset/portfolio/split set-up with and without grid argument, skip nodes, fix windows, optimise incl. soft-then-plain, extract_output, dcf, fill_level, make_slp, to_json, '
         'cost samples, io.optimize) on the same objects over 1-3 grid variants (shifted, other frequency, zone, main time unit, same object reused or fresh) and price containers in 5 forms, plus slot-logic histories of 3-8 '
         'operations over portfolios with windows / waccs on every level, scaled and structured assets, order books, storages and 2-3 grid objects (one shared), '
@@ -2269,6 +2327,8 @@ RULE = ('random histories of 2-8 calls (asset/portfolio/split set-up with and wi
         'with 2-3 data sets per grid, over portfolios around plants / CHPs with fuel and heat nodes whose fuel_efficiency, consumption_if_on, start_fuel, conversion_factor_power_heat, max_share_heat, start / running / '
         'min-load costs are KEYS into the data (or interval dicts), plus stream "ramp": histories over portfolios around plants / CHPs with START / SHUTDOWN RAMP PROFILES (power and heat, lists or arrays, ramp_freq None = main time unit of the grid '
         'of the call, or set), minimum run / down times and ramps on 2-4 grids of one horizon that differ in step and (6 of 10 variants) in the MAIN TIME UNIT h / d / min, calls on single assets naming a plant in 7 of 10 cases; '
+        'plus stream "nested": slot-logic histories over portfolios with WRAPPERS NESTED IN WRAPPERS (a scaled asset over a structured / linked asset, scaled and structured assets inside structured assets, to depth 4, own windows and waccs on every level) '
+        'and - 3 of 10 - a LINKED asset (alone, under a scaled asset, inside a structured asset, with a scaled asset among its wrapped assets), set-up / set_timegrid calls naming objects on every level of the trees (features state-tree:*, state-reader:*); '
         'features stream:* / case:* count these situations; after every set-up call the constructor parameters of all assets are compared with their values after construction (oracle parameter_changed; normalisation of the form accepted); '
         'every history runs through the fresh-object oracle AND the state-model '
         'comparison; features state-op:* (model calls), state-read:* / state-writer:* (which kind of window the builders read / the slots hold); non-trivial = history with >= 2 compared set-up calls; distinct by case hash')
@@ -2298,6 +2358,9 @@ def scenarios(seed, tier):
     rnd4 = random.Random(seed * 7919 + 3010)
     for i in range(ns):
         yield 'splitfail%d' % i, gen_splitfail_case(random.Random(rnd4.getrandbits(48)))
+    rnd5 = random.Random(seed * 7919 + 4010)
+    for i in range(200 if tier == 'quick' else 1500):
+        yield 'nested%d' % i, gen_nested_case(random.Random(rnd5.getrandbits(48)))
 
 
 def _step_of(freq):
@@ -2315,6 +2378,8 @@ def case_features(case):
     f = []
     if case.get('stream'):
         f.append('stream:' + case['stream'])
+    for x in case.get('nested') or []:
+        f.append('case:nested:' + x)
     steps = [g.get('step_s') for g in case['grids']]
     for a in scen.all_asset_specs(case['base']):
         fr = a.get('args', {}).get('freq')
@@ -2369,8 +2434,8 @@ def selftest(n, seed, drv=None, verbose=False, do_shrink=True):
     disagreements = []
     seen = set()
     for i in range(n):
-        # every third history is aimed at the slot logic
-        case = (gen_state_case if i % 3 == 2 else gen_case)(random.Random(rnd.getrandbits(48)))
+        # two of three histories are aimed at the slot logic, half of these over wrappers nested in wrappers / linked assets
+        case = (gen_nested_case if i % 3 == 1 else gen_state_case if i % 3 == 2 else gen_case)(random.Random(rnd.getrandbits(48)))
         try:
             r = execute(case)
             if drv is not None:
